@@ -126,7 +126,9 @@ package parse
 
 //@ func allSpaceWithNewline
 //@   pure
-//@   props C05
+//@   props C05 C15
+//@   at call unicode.IsSpace#* forbid[blank-line-test-uses-the-four-character-class-of-the-joining-rule;C15] false
+//@   at call parse.isSpaceEOL#0 assert[every-character-is-held-against-the-four-character-class;C15] arg0 == ch
 
 //@ func skipSpace
 //@   props C05
@@ -139,6 +141,7 @@ package parse
 
 //@ func lexText
 //@   like stateFn
+//@   at call (*lexer).peek#0 assert[slash-star-star-is-a-soydoc-only-if-no-slash-follows;C15] l.pos >= 3 && l.input[l.pos-1] == 42 && l.input[l.pos-2] == 42 && l.input[l.pos-3] == 47
 //@   loop 0
 //@     invariant lexerOK(l) && l.pos >= old(l.pos) && l.start == old(l.start) && (r != 0 ==> l.pos > old(l.pos))
 //@     decreases len(l.input) - l.pos
@@ -383,6 +386,7 @@ package parse
 //@   ensures treeOK(t) && cursor(t) == old(cursor(t)) + 1 && afterNext(t) && (old(t.lex.done) ==> t.lex.done)
 //@   ensures tokAt(result, old(cursor(t)), t.lex)
 //@   ensures t.peekCount == ite(old(t.peekCount) > 0, old(t.peekCount) - 1, 0) && (old(t.peekCount) > 0 ==> t.lex.recv == old(t.lex.recv))
+//@   ensures[a-buffered-token-is-the-next-one;C01,C15] old(t.peekCount) > 0 ==> result.typ == old(t.token[t.peekCount-1].typ)
 
 //@ func (*tree).peek
 //@   props C05 C18
@@ -390,6 +394,7 @@ package parse
 //@   modifies t.peekCount, t.token, t.lex.recv, t.lex.done
 //@   ensures treeOK(t) && cursor(t) == old(cursor(t)) && t.peekCount >= 1 && (old(t.lex.done) ==> t.lex.done)
 //@   ensures tokAt(result, cursor(t), t.lex)
+//@   ensures[the-peeked-token-is-the-buffered-one;C01,C15] result.typ == t.token[t.peekCount-1].typ
 
 //@ func (*tree).backup
 //@   props C05 C18
@@ -571,6 +576,7 @@ package parse
 //@   like exprFn
 //@   measure rem(t), 3
 //@   ensures result != nil
+//@   at call (*tree).next#1 assert[after-a-trailing-comma-the-closing-bracket-is-what-is-consumed;C01] t.peekCount >= 1 && t.token[t.peekCount-1].typ == itemRightBracket
 //@   loop 0
 //@     invariant stepOK(t) && fresh(items)
 //@     decreases ntoks(t.lex) - cursor(t)
@@ -579,6 +585,7 @@ package parse
 //@   like exprFn
 //@   measure rem(t), 3
 //@   ensures result != nil
+//@   at call (*tree).next#1 assert[after-a-trailing-comma-the-closing-bracket-is-what-is-consumed;C01] t.peekCount >= 1 && t.token[t.peekCount-1].typ == itemRightBracket
 //@   loop 0
 //@     invariant stepOK(t) && fresh(items)
 //@     decreases ntoks(t.lex) - cursor(t)
@@ -616,6 +623,10 @@ package parse
 //@   at call utf8.DecodeRuneInString#0 assert[body-read-rune-by-rune-from-the-cursor;C01] len(arg0) == n - 2 - i
 //@   at call utf8.DecodeRuneInString#0 after set r0 = res0
 //@   at call utf8.DecodeRuneInString#0 after set w0 = res1
+// (in these hooks s is the literal as given, quotes included, and i the cursor into its body after the four digits)
+//@   at call utf16.IsSurrogate#0 assert[a-\u-escape-is-looked-at-for-being-half-of-a-pair;C01] r0 == 117 && i <= n - 2
+//@   at call utf16.DecodeRune#0 assert[the-two-halves-of-a-surrogate-pair-are-combined;C01] r0 == 117 && i + 6 <= n - 2 && s[i+1] == 92 && s[i+2] == 117
+//@   at call errors.New#3 assert[backslash-quote-is-not-an-unrecognized-escape;C01] r0 != 34
 //@   loop 0
 //@     invariant 0 <= i && i <= len(s) && fresh(result)
 //@     decreases len(s) - i
@@ -688,6 +699,7 @@ package parse
 //@   like parserFn
 //@   measure rem(t), 5
 //@   at call (*tree).unexpected#0 assert[first-of-expression-accepted;C01] !firstOfExpr(arg1.typ)
+//@   at call (*tree).next#1 assert[a-literal's-text-is-taken-only-when-there-is-some;C15] t.peekCount >= 1 && t.token[t.peekCount-1].typ == itemText
 
 //@ func (*tree).parsePrint
 //@   like parserFn
